@@ -4,7 +4,7 @@ TIE = ("hand-written Gallina model tied to /repo by the correspondence run of th
        "vm_compute inside Coq on the inputs the implementation ran under CPython 3.7-3.10) and by "
        "harness/translate_src.py for the items in coq/Gen/Src.v, harness/translate_lines.py for the statement-level translations in "
        "coq/Gen/SrcLines.v (expand_items, collapse_items, _parse_bytes), translate_args.py / translate_key.py / translate_norm.py / translate_header.py for "
-       "Gen/SrcArgs.v, SrcKey.v, SrcNorm.v, SrcHeader.v, translate_toarg.py / translate_fromarg.py / translate_tables.py / translate_tojson.py for Gen/SrcToArg.v, SrcFromArg.v, SrcTables.v, SrcToJson.v and harness/translate_deps.py for the reference graph in coq/Gen/SrcDeps.v")
+       "Gen/SrcArgs.v, SrcKey.v, SrcNorm.v, SrcHeader.v, translate_toarg.py / translate_fromarg.py / translate_tables.py / translate_tojson.py / translate_flags.py for Gen/SrcToArg.v, SrcFromArg.v, SrcTables.v, SrcToJson.v, SrcFlags.v and harness/translate_deps.py for the reference graph in coq/Gen/SrcDeps.v")
 COMMON_TB = [KERNEL, TIE,
              "harness (worker.py, enc.py, common.py): serialisation of inputs/results, canonicalisation, oracles",
              "axioms: none declared; Print Assumptions output of every property theorem is in coverage.print_assumptions"]
@@ -249,6 +249,7 @@ PROPS["C03"]["level_text"] += "; FromArgs.__setitem__ / add likewise (C03_encode
 PROPS["C07"]["level_text"] += (
     "; the writer of constants is tied to the source by proof (C07_constant_writer_is_the_source: the constant branches of value_to_json, "
     "re-translated in Gen/SrcToJson.v, are the model's iconst_to_json for all constants)")
+PROPS["C11"]["level_text"] += "; to_flags_data / from_flags_data themselves are tied the same way (C11_flag_conversions_are_the_source, Gen/SrcFlags.v)"
 
 NOT_CLAIMED = {
 }
